@@ -460,6 +460,19 @@ func (i *interpreter) registerModels(harnessPkgPath string) {
 		t.schedPoint("syncmap")
 		t.acquire(p)
 		snap := append([]*smEntry{}, s.entries...)
+		// the iteration order of sync.Map.Range is unspecified: insertion order and its
+		// reverse are explored (one decision per path, taken at the first Range over >= 2 entries)
+		if n := len(snap); n >= 2 {
+			r := t.r
+			if r.mapRangeMode == 0 {
+				r.mapRangeMode = 1 + r.decide("maprange", 2)
+			}
+			if r.mapRangeMode == 2 {
+				for a, b := 0, n-1; a < b; a, b = a+1, b-1 {
+					snap[a], snap[b] = snap[b], snap[a]
+				}
+			}
+		}
 		for _, e := range snap {
 			live := false
 			for _, c := range s.entries {
